@@ -34,7 +34,7 @@ fn visit(env: &Env, s: &str, st: &mut Stats) {
 }
 
 pub fn run(env: &Env, run: &Run) -> (Stats, Coverage) {
-    let sigma = sigma12();
+    let sigma = crate::sig::rotated(env, sigma12(), run.seed);
     let n = run.tier.pick(7, 9);
     let mut st = strtree(&sigma, n, |_c, s, st| visit(env, s, st));
     st.merge(cpsweep(|c, st| {
